@@ -472,9 +472,13 @@ class The(ResultQuantifier[T]):
     """
 
     def evaluate(self) -> TypingUnion[Iterable[T], T, UnificationDict]:
-        result = self._evaluate_()
-        result = self._process_result_(result)
+        # start from a clean state whatever happened to earlier evaluations, and leave a clean state behind on any exit
         self._reset_cache_()
+        try:
+            result = self._evaluate_()
+            result = self._process_result_(result)
+        finally:
+            self._reset_cache_()
         return result
 
     def _evaluate__(self, sources: Optional[Dict[int, HashedValue]] = None, yield_when_false: bool = False) -> Iterable[Dict[int, HashedValue]]:
@@ -517,11 +521,16 @@ class An(ResultQuantifier[T]):
         self._node_.wrap_subtree = True
 
     def evaluate(self) -> Iterable[TypingUnion[T, Dict[TypingUnion[T, SymbolicExpression[T]], T]]]:
-        with symbolic_mode(mode=None):
-            results = self._evaluate__()
-            assert not in_symbolic_mode()
-            yield from map(self._process_result_, results)
+        # start from a clean state whatever happened to earlier evaluations, and leave a clean state behind on any exit
+        # (exhausted, closed early, abandoned or aborted by an exception raised from user code).
         self._reset_cache_()
+        try:
+            with symbolic_mode(mode=None):
+                results = self._evaluate__()
+                assert not in_symbolic_mode()
+                yield from map(self._process_result_, results)
+        finally:
+            self._reset_cache_()
 
     def _evaluate__(self, sources: Optional[Dict[int, HashedValue]] = None, yield_when_false: bool = False) -> Iterable[T]:
         sources = sources or {}
